@@ -414,6 +414,8 @@ class PhaseField(_Simu):
             oldAndNewDamage[:, 0] = old_damage
             oldAndNewDamage[:, 1] = d_np1
             d_np1 = np.max(oldAndNewDamage, 1)
+            # keep the irreversible damage as the current (and saved) damage field
+            self._Set_solutions(self.ProblemTypes.damage, d_np1)
 
         else:
             raise Exception("Unknown phase field solver.")
